@@ -164,8 +164,8 @@ def run_wild(pid, seed, n, res):
 # ["l", [...]], a `ttc` dictionary = ["t", [[key, text], ...]] (`PyDictS`: the value under `name` is the string, any other
 # value its JSON text), a non-empty `extras` dictionary = ["j", canonical JSON text].
 class _Extras(dict):
-    """an `extras` dictionary of the generated side: kept as canonical JSON text there, so the order of its keys (and of
-    the keys of nested dictionaries) carries no information - compared as a value"""
+    """an `extras` dictionary of the generated side: kept as canonical JSON text there (`.text`), so the order of its keys
+    (and of the keys of nested dictionaries) carries no information - compared through the canonical text of the real one"""
 
 class _Rec(dict):
     """a dictionary with a fixed key set of the generated side (a record of the prelude): the order of ITS keys is not
@@ -186,7 +186,9 @@ def ag_doc_decode(j):
             except ValueError: return _BadFloat(j[1])
         if tag == 'l': return [ag_doc_decode(v) for v in j[1]]
         if tag == 't': return {k: (v if k == 'name' else json.loads(v)) for k, v in j[1]}
-        if tag == 'j': return _Extras(json.loads(j[1]))
+        if tag == 'j':
+            e = _Extras(json.loads(j[1])); e.text = j[1]
+            return e
         raise ValueError(f'bad ordered rendering {j!r:.80}')
     return j
 
@@ -208,7 +210,11 @@ def doc_same(real, gen, ordered=True, relax=()) -> bool:
     """the generated document is the real one: same keys IN THE SAME ORDER (`ordered`), keys and scalars of the same Python
     type (1, 1.0, True, '1' are four different things), lists element by element.  Below a key listed in `relax`, and inside
     an `extras` value of the generated side, dictionaries are compared without order."""
-    if isinstance(gen, _Extras): ordered = False
+    if isinstance(gen, _Extras):
+        # the convention of the heaps: an `extras` dictionary IS its canonical JSON text (`langgen.jtxt`: sorted keys, keys that
+        # are not strings tagged, `1` / `1.0` / `true` distinct)
+        from .langgen import jtxt
+        return isinstance(real, dict) and jtxt(real) == gen.text
     if isinstance(real, dict):
         if not isinstance(gen, dict) or len(real) != len(gen): return False
         kr, kg = list(real), list(gen)
